@@ -31,7 +31,11 @@ func (sx *server) Run() error {
 		if err != nil {
 			return err
 		}
-		v4, err := layer.DecodeIPv4(buf[0:nr])
+		// Handlers run concurrently and keep references into the packet (option payloads),
+		// so every packet gets its own copy of the receive buffer.
+		pkt := make([]byte, nr)
+		copy(pkt, buf[0:nr])
+		v4, err := layer.DecodeIPv4(pkt)
 		if err != nil {
 			continue
 		}
